@@ -110,6 +110,12 @@ func cmpNode(st *stats, fam string, im *btc.HDWallet, rk *refhd.Key, ver uint32,
 	if im.Depth != rk.Depth || im.I != rk.Index || im.Checksum != rk.ParentFP {
 		return bad("metadata", fmt.Sprintf("depth/index/fingerprint %d/%d/%x, BIP32 gives %d/%d/%x", im.Depth, im.I, im.Checksum, rk.Depth, rk.Index, rk.ParentFP))
 	}
+	// root-cause check first: the public key gocoin computes for this private key
+	if cls, gp, wp := pubMismatch(rk.PrivBytes()); cls != "" {
+		st.add(fam, "ref:key", "impl:public-key-"+cls)
+		st.fail("lib/public-from-private/"+cls, fmt.Sprintf("seed %x path %s: btc.PublicFromPrivate(%x, compressed) = %x, the public key is %x (Pub(), the fingerprint and non-hardened children of this node are wrong in consequence)", seed, ps, rk.PrivBytes(), gp, wp), rp, ord)
+		return false
+	}
 	want, _ := rk.Serialize(ver)
 	var got, gotPub string
 	if p := guard(func() { got = im.String(); gotPub = im.Pub().String() }); p != "" {
@@ -293,6 +299,75 @@ func leadingZeroSeed(tag string) []byte {
 		}
 	}
 	return nil
+}
+
+// ---------------------------------------------------------------- public key of a private key
+
+// smallYKeys: private keys whose public point has Y < 2^244 (two leading zero
+// nibbles + one more), the first 40 of the chain k_{i+1} = SHA256(k_i),
+// k_0 = SHA256("c14 small-y key search"), found by search. The property is
+// re-verified with the reference at run time.
+var smallYKeys = []string{
+	"cf4c1644f88a5c9b7b09118f869491e4f13e52521e16a102e86fd3b273e6fe79", "0905f66b319c12b46976979141c189dbfb219ee6162d153a70a158cbc09f76c8",
+	"3cbcf7b7a677efd8c2fb553037cc4a92023ffce68ee1ba944b5b60c6ec1914d0", "96622fa0828d1be80f431b0c43709e18e145001758184f676b0ae7a75bf545ee",
+	"5d9bf845d2c177e029130780c101c00fb75099f51fd8e56d70a33d89d392cfa9", "4c866763dee108f14235328138567e9c9a58c813b598fee6fca56dc79825b8ff",
+	"14a53789ec49993ae589c39a45458f2486243bee1cc21d3ff879854d7955f526", "48b6efb58260f87d8d3d000399b2c19c0f4a8124851a4d76053d12991f9f0252",
+	"f9a7f548328bbb59a63b1cdcd87d26d087c9be29c449df65f71bdfeb37562e7f", "59fb8aec8476384b338444375ee043d6d65add94c2d62930137b509be0ff9c2c",
+	"02366b73b7bea7046e347b2b7bbc3616e4420116e14e5baaf58d65bfe9a0a869", "8d916f90be6b79acbf378fe826400e3b8c2d07d8d0b41c5b14daf7b9bea60db5",
+	"bc9cea7910ca70a8ad9ec45cff6ba0fbbef9cbba8a8f34dcff50e1e4723d56f4", "9fb3eeebd28d2946b2d920fdae6e7c1dbf93734c85c3f7c14a0e9b119340eff9",
+	"27f63af6d30054e09ebb3d6a82841ddf4850a2aefecad43a60b6227942051d6f", "6a12f487b3675bc824744a8ad77886e953441060f68f32fe61bab3b8d6c1587a",
+	"88774ae399f6ace12a827cb0e6a3752c87e1fd3a153a5d7bf22a5876a9670a53", "f4eaded71974520a6209a047ff53f05a6792532ea033f0d78e78ea5cb87e5d50",
+	"2a187ef8e912b59b696ff99fce31efbd180eb66670eee7e6f42fbe0a6fce5678", "9a4a75e1b2c8dc6fdf2042b8e8e201e77b81cf52c648df0b596ae173e12e1868",
+	"11f429cc870fe467509665c9ef940f466e49e38916498fde2ade3ea78a6275d3", "9504316b7a2deee9b13df8f031381ef6f79da01c16d716777f34e3e32ce27205",
+	"f31421bc1126c494de9ede58673ee98b8be0489c715492f6174dd9b5fa9ee59a", "4c9f4fed3a6fca4e778c27f4659bd56cb44ee30322709e1daf76a570bfa1aa27",
+	"7a281d1530be76659f0901e7fb6739241ddc50277dcef1d6f788ab242f64bc6d", "34cd5606669d213cdecb9ea9e4fd648e4eb1803bce98ef7d116b9a88d5676e5b",
+	"eebdeb5831a52dae84f746fa4b84f68759bc026894495d6e885271e242d347f7", "9cf9bdf865016941264e994a8bb10d8ae0ec2217b6c3d8c42200d53ad646622c",
+	"7452515e424f27ad613ebdd4f008a92a5fe5035a09212713eca7e0e13adcdcc6", "82f62f07c2fd34b212350a86a2a53b2d581e3e64a2ba9c8b13be54f176903cf8",
+	"ac18ea6e3c65d0e6143a90c61b13581534495f90ccbce3df1c06aefd8cba9f8f", "19f46160b1ef96eb6440ef2f66b91badf2de4e684ec10f31baa9cdc8c01961ff",
+	"f2a126aa4472bcbf08ddca0b7bf8a030124f51ebe2c3265f9fc5c98140e2167f", "3c64f4854147e443a8f6debacc947a77832307c3066e808773f0501f5789937d",
+	"0cc068006f37a57243befee011d5c985bd719bff002532e241b65e033717f43a", "a3e16cc54ae185810a3b3d22a47162af9b1b91eae4a4d5c566862830e324d202",
+	"1319b38c518dcfed92884106509d32e2b372bb24d6232629396aeffe5ed6bd56", "f09c44e4589fccd9b689805629ad179b320061e56d9195476377582639a2975c",
+	"4069ea9ba2104521afa9da37541dbcf163048dfee7cb0820c27d596b0684e412", "ecf713cb3d8440eaf53575321dcf3ae604b48b1c0fefa915477aa4c5ef819ab6",
+}
+
+// pubMismatch compares btc.PublicFromPrivate (compressed) with the reference.
+// Returns "" when equal, "wrong-y-parity" when only the parity byte differs,
+// "mismatch" otherwise.
+func pubMismatch(priv []byte) (class string, got, want []byte) {
+	want, err := refhd.PubFromPriv(priv)
+	if err != nil {
+		return "", nil, nil
+	}
+	guard(func() { got = btc.PublicFromPrivate(priv, true) })
+	switch {
+	case bytes.Equal(got, want):
+		return "", got, want
+	case len(got) == 33 && bytes.Equal(got[1:], want[1:]):
+		return "wrong-y-parity", got, want
+	}
+	return "mismatch", got, want
+}
+
+// evalPubFromPriv judges btc.PublicFromPrivate on one private key (compressed
+// and uncompressed form).
+func evalPubFromPriv(st *stats, fam string, priv []byte) {
+	rp := map[string]interface{}{"kind": "privkey", "hex": hex.EncodeToString(priv)}
+	ord := "0000|" + hex.EncodeToString(priv)
+	cls, got, want := pubMismatch(priv)
+	if cls != "" {
+		st.add(fam, "ref:pubkey", "impl:"+cls)
+		st.fail("lib/public-from-private/"+cls, fmt.Sprintf("btc.PublicFromPrivate(%x, compressed) = %x, the public key is %x", priv, got, want), rp, ord)
+		return
+	}
+	wantU, _ := refhd.UncompressedFromPriv(priv)
+	var gotU []byte
+	guard(func() { gotU = btc.PublicFromPrivate(priv, false) })
+	if !bytes.Equal(gotU, wantU) {
+		st.add(fam, "ref:pubkey", "impl:uncompressed-differs")
+		st.fail("lib/public-from-private/uncompressed-mismatch", fmt.Sprintf("btc.PublicFromPrivate(%x, uncompressed) = %x, the public key is %x", priv, gotU, wantU), rp, ord)
+		return
+	}
+	st.add(fam, "ref:pubkey", "impl:same")
 }
 
 // ---------------------------------------------------------------- extended key strings
